@@ -318,6 +318,13 @@ def cases(ctx):
       for T2 in TYPES:
         if T != T2:
           out.append({'T': T, 'T2': T2, 'raw': raw, 'vals': vals, 'two_way': False})
+  # adjacent cells that are == but of different types (1, True, 1.0; 0, False, 0.0; '' ...): each cell gets the
+  # conversion of ITS OWN old value
+  runs = [1, True, 1.0, 1, 0, False, 0.0, 0, None, '', 2, 2.0, True, True, 1, 'a', 'a', 1.0, True]
+  for T in ('Any', 'Text', 'Numeric', 'Int', 'Bool'):
+    for T2 in ('Text', 'Any', 'Int', 'Bool', 'Numeric', 'Choice'):
+      if T != T2:
+        out.append({'T': T, 'T2': T2, 'raw': True, 'vals': list(runs), 'two_way': False})
   # two-way references: Ref <-> RefList with a reverse column
   for T, T2 in (('Ref:U', 'RefList:U'), ('RefList:U', 'Ref:U')):
     for k in range(ctx.n(2, 12)):
@@ -377,7 +384,7 @@ def tie_term(t):
 
 
 TIE_DEFS = r'''
-Require Import Grist.Model.ModifyColumn.
+Require Import Grist.Model.ModifyColumn GristGen.ModifyColumn_gen Grist.Proofs.ModifyColumn_bridge.
 Definition lk (tbl : list (Z * Z)) (v : Z) : Z :=
   match find (fun p => Z.eqb (fst p) v) tbl with Some p => snd p | None => v end.
 Definition sePairs (l : list (Z * Z)) (a b : Z) : bool := existsb (fun p => Z.eqb (fst p) a && Z.eqb (snd p) b) l.
@@ -394,8 +401,9 @@ Definition c23_check (c : list nat * list Z * list (Z * Z) * list (Z * Z) * list
     match modify_column Z (lk conv) (lk st) (sePairs se) dflt 1%nat d sT sA with
     | Err _ => false
     | Ok d' =>
-      (* the converted column *)
+      (* the converted column: by the hand model, and by the loops regenerated from the source *)
       zs_eqb (map (fun r => match cell Z d' sT sA r with Some v => v | None => (-1) end) rows) new &&
+      zs_eqb (map (fun r => raw_get Z dflt (new_data_gen Z (lk conv) (lk st) (sePairs se) dflt 1%nat rows oldc) r) rows) new &&
       (* the untouched columns, the other table, the row ids *)
       match get_table Z d' sT, get_table Z d' sW with
       | Some tb, Some tw =>
@@ -429,6 +437,7 @@ def correspond(ctx):
     ctx.broken('correspondence:the model of the ModifyColumn data path does not reproduce the engine',
                repr({k: info[i][k] for k in ('T', 'T2', 'raw', 'two_way')}) + ' values ' + repr(info[i]['vals'])[:1500])
   ctx.extra['replayed_through_model'] = len(terms)
+  ctx.extra['translator_differential_cases'] = len(terms)   # the regenerated loops evaluated by vm_compute vs the engine
 
 
 def fixed_corpus(ctx):
@@ -488,3 +497,75 @@ def replay(ctx, w):
   if probs:
     return '%s -> %s: %s' % (w['T'], w['T2'], probs[0][1])
   return None
+
+
+# ------------------------------------------------------------------------------------------------
+# regeneration of the deciding loops from /repo (harness/sm2v.py), bridged in Proofs/ModifyColumn_bridge.v
+
+# sha1 of the canonical AST of the statements of doModifyColumn that are NOT translated (the order "read the old values,
+# apply the doc action, convert" and the reverse-column update are glue the model was written from)
+PIN_DOMODIFY = 'c2ee74ccbb38bc5828d3b0679e6de8be31ee1e65'
+# statements of docactions.ModifyColumn the data path relies on besides the translated loop
+PIN_DOCACTION = ['old_column = table.get_column(col_id)', 'new_column = table.get_column(col_id)']
+
+CONV_BINDING = {
+  'names': {'new_column': 'new_column'}, 'exprs': {'all_rows': 'all_rows'},
+  'index': {'all_old_values': 'all_old_values {0}'},
+  'calls': {'new_column.convert': 'col_convert {0}', 'strict_equal': 'strict_equal {0} {1}',
+            'new_column.raw_get': 'raw_get V dflt new_column {0}'},
+  'mutators': {'new_column.set': ('new_column', 'store V dflt {2} {0} (col_set {1})'),
+               'changes.append': ('changes', '{1} ++ [{0}]')}}
+FILL_BINDING = {
+  'names': {'new_column': 'new_column'}, 'exprs': {'table.row_ids': 'rows'},
+  'calls': {'old_column.raw_get': 'raw_get V (c_default old_column) (c_data old_column) {0}'},
+  'mutators': {'new_column.set': ('new_column', 'store V dflt {2} {0} (col_set {1})')}}
+
+
+def regenerate(ctx):
+  import hashlib
+  import os
+  from harness import sm2v
+  try:
+    fn = sm2v.find_function(os.path.join(core.GRIST, 'useractions.py'), 'UserActions.doModifyColumn')
+    pre, rng, post = sm2v.split_range(fn, 'changes = []', 'for row_id in all_rows')
+    if hashlib.sha1(sm2v.pin(pre + post).encode()).hexdigest() != PIN_DOMODIFY:
+      raise core.TieBroken('useractions.doModifyColumn: the statements around the conversion loop are not the ones the '
+                           'model was written from (order of reading old values / doc action / reverse update)')
+    conv = sm2v.Tr(CONV_BINDING).block(rng, ['new_column', 'changes'])
+    fn2 = sm2v.find_function(os.path.join(core.GRIST, 'docactions.py'), 'DocActions.ModifyColumn')
+    body = sm2v.strip_doc(fn2.body)
+    texts = [sm2v.U(s) for s in body]
+    for t in PIN_DOCACTION:
+      if texts.count(t) != 1:
+        raise core.TieBroken('docactions.ModifyColumn: statement %r not found exactly once' % t)
+    loops = [s for s in body if isinstance(s, sm2v.ast.For)]
+    if len(loops) != 1 or texts.index(PIN_DOCACTION[1]) + 1 != body.index(loops[0]):
+      raise core.TieBroken('docactions.ModifyColumn: the fill loop does not follow `new_column = table.get_column(col_id)`')
+    fill = sm2v.Tr(FILL_BINDING).block(loops, ['new_column'])
+  except (sm2v.Untranslatable, core.TieBroken) as e:
+    # no stale generated code: the bridging obligations cannot be discharged until the source is translatable again
+    core.write_if_changed(os.path.join(core.COQ, 'gen', 'ModifyColumn_gen.v'),
+                          '(* translation of the ModifyColumn loops failed: %s *)\n' % str(e).replace('*', ' '))
+    raise core.TieBroken('the ModifyColumn data path is outside the translated subset: %s' % e)
+  text = '''(* GENERATED by harness/props/c23.py (harness/sm2v.py) from sandbox/grist/useractions.py (doModifyColumn, the conversion
+   loop) and docactions.py (ModifyColumn, the fill loop).  Do not edit. *)
+From Coq Require Import ZArith List Bool.
+Import ListNotations.
+Require Import Grist.Model.ModifyColumn.
+
+Section Gen.
+  Variable V : Type.
+  Variable col_convert : V -> V.
+  Variable col_set : V -> V.
+  Variable strict_equal : V -> V -> bool.
+  Variable dflt : V.
+
+  Definition conv_loop_gen (all_rows : list nat) (all_old_values : nat -> V) (new_column : list V)
+    : list V * list (nat * V * V) :=
+%s.
+
+  Definition fill_loop_gen (rows : list nat) (old_column : column V) (new_column : list V) : list V :=
+%s.
+End Gen.
+''' % (conv, fill)
+  core.write_if_changed(os.path.join(core.COQ, 'gen', 'ModifyColumn_gen.v'), text)
